@@ -1370,6 +1370,8 @@ fn d_world(c: &DCase) -> Option<World> {
     // a little collateral from another depositor so that the victim is not the whole bank
     w.vm.exec(&w.ix_deposit(u[1].accts[0], u[1].auth, 0, u[1].tokens[0], (coll / 7 + 1) as u64, None)).ok()?;
     w.vm.exec(&w.ix_init_liq_record(u[0].accts[0], w.roles.risk)).ok()?;
+    // the other depositor has a liquidation record too (for the two-brackets-one-end probe)
+    w.vm.exec(&w.ix_init_liq_record(u[1].accts[0], w.roles.risk)).ok()?;
     Some(w)
 }
 
@@ -1387,6 +1389,7 @@ pub struct DStats {
     pub outside_checked: u32,
     pub withdraw_all_in_bracket: u32,
     pub withdraw_all_committed: u32,
+    pub two_brackets_one_end: u32,
     pub helper_signed_in_bracket: u32,
     pub helper_signed_committed: u32,
     pub codes: Vec<u64>,
@@ -1597,6 +1600,26 @@ pub fn run_dcase(c: &DCase, st: &mut DStats) -> Result<(), (String, String)> {
             if probe.exec_tx(&trailing).ok {
                 return Err(("deleverage:bracket:withdraw-after-end".into(), "a withdraw by the risk admin after end_deleverage committed".into()));
             }
+            // two brackets, one end: the victim's bracket is opened and used, then ANOTHER account's bracket is opened and
+            // closed - the victim's is never ended (no health comparison, markers left behind). With and without a short
+            // instruction of an allow-listed program in between.
+            let other = w.users[1].accts[0];
+            for with_short in [false, true] {
+                let mut probe = w.vm.clone();
+                let mut two = vec![ixs[0].clone(), ixs[1].clone()];
+                if with_short {
+                    two.push(solana_program::instruction::Instruction { program_id: crate::svm::proxy_id_allowed(), accounts: vec![], data: vec![1] });
+                }
+                two.push(w.ix_start_deleverage(other, risk));
+                two.push(w.ix_end_deleverage(other, risk, w.risk_metas(&other, None, None)));
+                st.two_brackets_one_end += 1;
+                if probe.exec_tx(&two).ok {
+                    return Err((
+                        "deleverage:bracket:not-ended".into(),
+                        format!("[start_deleverage(victim), withdraw(victim),{} start_deleverage(other), end_deleverage(other)] committed: the victim's bracket was never ended (flags {:#b})", if with_short { " short ix," } else { "" }, read_macct(&probe, &victim).map(|a| a.account_flags).unwrap_or(0)),
+                    ));
+                }
+            }
         }
         let pre_vm = w.vm.clone();
         let h_pre = read_macct(&pre_vm, &victim).map(|a| health(&pre_vm, &a, Req::Maintenance, now));
@@ -1668,7 +1691,7 @@ pub fn run_dcase(c: &DCase, st: &mut DStats) -> Result<(), (String, String)> {
 // ==========================================================================================
 // Driver
 // ==========================================================================================
-const RULE: &str = "proptest, one stream per instruction. Parts A/B: 3-bank worlds (SPL / Token-2022 / transfer-fee mints, fixed / Pyth / Switchboard oracles, e-mode, caps) with depositors and borrowers in every bank; the target bank's pre-state flag word is set through real instructions (configure_bank: freeze / permissionless bad debt / tokenless repayments; force_tokenless_repay_complete; optional emissions set-up; CLOSE_ENABLED from creation). A: every delegated-admin instruction (interest-only, limits-only, e-mode configure, e-mode clone by e-mode or group admin, setup_emissions, update_emissions_parameters, init/write_bank_metadata, force_tokenless_repay_complete, purge_deleverage_balance) with every Option combination, 64-bit flag words (uniform, single bits, all subsets of the two emission bits, emission bits mixed with others), limits 0/1/MAX, valid and invalid curves / e-mode entries / amounts; after each SUCCESS the whole account store is diffed field by field and every changed field/account must lie in the role's frame written from the statement (cache.*, last_update always allowed). B: with FREEZE_SETTINGS set, configure_bank (all BankConfigOpt combinations incl. freeze_settings=false), interest-only, limits-only, configure_bank_oracle, set_fixed_oracle_price, e-mode configure/clone, setup/update emissions by the proper signer: weights, oracle settings, curve, risk tier, cap, operational state, asset tag and the freeze bit are unchanged after any success. C: risk-admin brackets [start_deleverage, withdraw x1-3 (in three eighths of the brackets some of them carry a helper's key and token account instead of the risk admin's - inside a receivership any signer may withdraw, the withdrawal still counts), repay (a quarter of them repay_all: the account ends debt-free), end_deleverage] with withdraw sizes around (limit - withdrawn) +-2 $, limits 0..50k $, clock gaps {0,1,100,43200,86399,86400,86401,172800} s: committed bracket => health not lower (model enclosure), flags cleared, sum of per-withdrawal whole dollars in the model's day window <= limit; no withdraw outside / after a bracket. Non-trivial = successful admin instruction on a frozen bank or with an out-of-remit bit/field in its argument; committed or rejected deleverage bracket that crosses the limit, hits it exactly, or restarts the day window.";
+const RULE: &str = "proptest, one stream per instruction. Parts A/B: 3-bank worlds (SPL / Token-2022 / transfer-fee mints, fixed / Pyth / Switchboard oracles, e-mode, caps) with depositors and borrowers in every bank; the target bank's pre-state flag word is set through real instructions (configure_bank: freeze / permissionless bad debt / tokenless repayments; force_tokenless_repay_complete; optional emissions set-up; CLOSE_ENABLED from creation). A: every delegated-admin instruction (interest-only, limits-only, e-mode configure, e-mode clone by e-mode or group admin, setup_emissions, update_emissions_parameters, init/write_bank_metadata, force_tokenless_repay_complete, purge_deleverage_balance) with every Option combination, 64-bit flag words (uniform, single bits, all subsets of the two emission bits, emission bits mixed with others), limits 0/1/MAX, valid and invalid curves / e-mode entries / amounts; after each SUCCESS the whole account store is diffed field by field and every changed field/account must lie in the role's frame written from the statement (cache.*, last_update always allowed). B: with FREEZE_SETTINGS set, configure_bank (all BankConfigOpt combinations incl. freeze_settings=false), interest-only, limits-only, configure_bank_oracle, set_fixed_oracle_price, e-mode configure/clone, setup/update emissions by the proper signer: weights, oracle settings, curve, risk tier, cap, operational state, asset tag and the freeze bit are unchanged after any success. C: risk-admin brackets [start_deleverage, withdraw x1-3 (in three eighths of the brackets some of them carry a helper's key and token account instead of the risk admin's - inside a receivership any signer may withdraw, the withdrawal still counts), repay (a quarter of them repay_all: the account ends debt-free), end_deleverage] with withdraw sizes around (limit - withdrawn) +-2 $, limits 0..50k $, clock gaps {0,1,100,43200,86399,86400,86401,172800} s: committed bracket => health not lower (model enclosure), flags cleared, sum of per-withdrawal whole dollars in the model's day window <= limit; no withdraw outside / after a bracket; [start(victim), withdraw(victim), (short ix,) start(other), end(other)] never commits. Non-trivial = successful admin instruction on a frozen bank or with an out-of-remit bit/field in its argument; committed or rejected deleverage bracket that crosses the limit, hits it exactly, or restarts the day window.";
 
 fn split_err(msg: &str) -> (String, String) {
     msg.split_once('|').map(|(a, b)| (a.to_string(), b.to_string())).unwrap_or((msg.to_string(), msg.to_string()))
@@ -1752,6 +1775,7 @@ fn run_delev_stream(ctx: &Ctx, wi: usize, cases: u32, rep: &mut Report) {
             rep.label_n("C:bracket-with-withdraw_all", st.withdraw_all_in_bracket as u64);
             rep.label_n("C:bracket-with-withdraw_all-committed", st.withdraw_all_committed as u64);
             rep.label_n("C:bracket-with-helper-signed-withdraw", st.helper_signed_in_bracket as u64);
+            rep.label_n("C:two-brackets-one-end-probes-refused", st.two_brackets_one_end as u64);
             rep.label_n("C:bracket-with-helper-signed-withdraw-committed", st.helper_signed_committed as u64);
             for g in &st.boundary_commit {
                 rep.label(&format!("C:window-restart-at-gap:{g}"));
